@@ -3,6 +3,7 @@
   Definitions: Props/C17Defs.lean; per-family cell checks: Props/C17Fam*.lean.
 -/
 import Distill.Proofs.Pagination
+import Distill.Proofs.PageGroups
 import Distill.Props.C17Fam0
 import Distill.Props.C17Fam1
 import Distill.Props.C17Fam2
@@ -34,6 +35,32 @@ theorem conventional_pagers (f : PagerFamily) (hf : f ∈ pagerFamilies) (n k : 
     result f n k = some (expected f.pages n k) := by
   have h := conventional_pagers_cells f hf (n, k) (allCells_complete n k hn hk)
   simpa [cellOk] using h
+
+/-- the entries of a conventional pager: 1 … N, the current page k without URL -/
+def pagerEntries (pages : List String) (n k : Nat) : List PInfo :=
+  (List.range n).map (fun i =>
+    ({ num := ((i + 1 : Nat) : Int), url := if i + 1 == k then "" else pages.getD i "" } : PInfo))
+
+theorem ascending_range (f : Nat → String) : ∀ (n s : Nat),
+    Ascending ((List.range' s n).map (fun i => ({ num := ((i + 1 : Nat) : Int), url := f i } : PInfo)))
+  | 0, _ => by simp [Ascending]
+  | 1, _ => by simp [List.range', Ascending]
+  | n + 2, s => by
+    have ih := ascending_range f (n + 1) (s + 1)
+    simp only [List.range', List.map] at ih ⊢
+    exact ⟨by simp; omega, ih⟩
+
+/-- **From the scan's calls to the group.**  For every N ≥ 2 (no bound) the calls the scan
+makes for a conventional pager — AddGroup, then one AddPageInfo/AddNumber per entry in
+ascending order, CleanUp — leave exactly the one group the table theorem is about. -/
+theorem pager_calls_give_group (pages : List String) (n k : Nat) (hn : 2 ≤ n) :
+    (runOps (GOp.addGroup :: (pagerEntries pages n k).map GOp.add ++ [GOp.cleanUp])).groups = pagerGroups pages n k := by
+  have hlen : 2 ≤ (pagerEntries pages n k).length := by simp [pagerEntries]; exact hn
+  have hasc : Ascending (pagerEntries pages n k) := by
+    have := ascending_range (fun i => if i + 1 == k then "" else pages.getD i "") n 0
+    simpa [pagerEntries, List.range_eq_range'] using this
+  rw [Pg.ascending_one_group _ hlen hasc]
+  rfl
 
 /-- **Prev/next algorithm.**  A candidate that is not banned, scored at least 50 and scored
 strictly higher than every other eligible candidate with a different href is what the finder
